@@ -18,7 +18,7 @@ def run(ctx):
     RB = 14 if thorough else 12
     qs = []
     for nm, sg in (('length-positive-step', 1), ('length-negative-step', -1)):
-        qs.append(Query(nm, L, hs, ['U=%d' % U, 'RB=%d' % RB, 'STEPSIGN=%d' % sg], unwind=U + 2, timeout=3000 if thorough else 400, backend='cadical',
+        qs.append(Query(nm, L, hs, ['U=%d' % U, 'RB=%d' % RB, 'STEPSIGN=%d' % sg], unwind=U + 2, timeout=3000 if thorough else 1500, backend='cadical',
                         desc='range::length() vs the sequential loop, all start/end in [-2^%d,2^%d], step %s 0, trip count <= %d' % (RB, RB, '>' if sg > 0 else '<', U)))
     C.selftest(ctx, L, hs, ['U=%d' % U], [dict(start=0, end=5, step=1), dict(start=5, end=0, step=-2), dict(start=3, end=3, step=1), dict(start=0, end=7, step=3), dict(start=2, end=-5, step=4)], 'len')
     C.run_queries(ctx, qs)
